@@ -21,6 +21,18 @@ CLAIMED = {
             "Assumes Unix path semantics; symlinks are excluded by the property itself."),
 }
 
+CLAIMED["C20"] = (
+    "dominance / must-pass-through / who-may-write rules on acquire_env and Notifier MIR (typestate of the reload flag)",
+    "Static rule check on all paths of acquire_env and the Notifier methods: the flag reset dominates every rebuild "
+    "and is unreachable after it, rebuilds are control-dependent on (no cached env || should_reload()), every path "
+    "from the reset to a return replaces/clears the environment or re-arms the flag, every NotifierImpl access is "
+    "through its MutexGuard, both request entry points set the flag on all live paths.  These are the code-shape "
+    "facts the no-lost-request interleaving argument rests on; schedules are not explored (that would be a "
+    "different technique), so the claim is the structural clause, for all paths.",
+    "DESIGN.md §3 C20",
+    "The interleaving argument over the checked facts is on paper; callbacks supplied by the host are assumed not to "
+    "touch the flag.")
+
 NOT_APPLICABLE = {
 }
 
